@@ -30,10 +30,10 @@ Proof.
   unfold gen_check_intersection. revert b2.
   induction b1 as [|[l1 u1] b1 IH]; intros [|[l2 u2] b2] Hl; simpl in *; try discriminate; auto.
   specialize (IH b2 ltac:(lia)). unfold lowers, uppers in *.
-  destruct (Qle_bool u2 l1); simpl; auto.
-  destruct (Qle_bool u1 l2); simpl.
-  - rewrite orb_true_r. reflexivity.
+  destruct (Qle_bool l1 u2); simpl; auto.
+  destruct (Qle_bool l2 u1); simpl.
   - rewrite <- IH. reflexivity.
+  - rewrite orb_true_r. reflexivity.
 Qed.
 
 Lemma gen_rect_update_ok mean std scale : length std = length mean -> length scale = length mean ->
